@@ -51,16 +51,29 @@ func (r *Reader) ReadEntry() (*Entry, error) {
 				}
 				return nil, io.EOF
 			}
+			// A damaged record ends whatever entry was being assembled; its
+			// fragments must not be glued to a later entry
+			r.fragments = r.fragments[:0]
 			return nil, err
 		}
 
 		// Process based on record type
 		switch record.recordType {
 		case RecordTypeFull:
+			// A full record cannot appear inside a fragmented entry (the type
+			// byte is not covered by the CRC, so check the sequence)
+			if len(r.fragments) > 0 {
+				r.fragments = r.fragments[:0]
+				return nil, fmt.Errorf("%w: full record inside a fragmented entry", ErrCorruptRecord)
+			}
 			// Single record, parse directly
 			return r.parseEntryData(record.data)
 
 		case RecordTypeFirst:
+			if len(r.fragments) > 0 || len(record.data) == 0 {
+				r.fragments = r.fragments[:0]
+				return nil, fmt.Errorf("%w: unexpected or empty first fragment", ErrCorruptRecord)
+			}
 			// Start of a fragmented entry
 			r.fragments = append(r.fragments, record.data)
 			r.currType = record.data[0] // Save the operation type
